@@ -1179,15 +1179,33 @@ func runOne(seed int64, noCoq bool) (coq, kind, desc, oracle string, st runStats
 		delivered: map[int]bool{}, noCoq: noCoq}
 
 	if preloadOld {
-		rn.roots = []ref{{0, w.hid(oldT.root)}}
-		rn.recomputeClosure()
-		for x, p := range rn.closure {
-			rn.target.bucket(bucketIDs[x.bk]).preload(w.hbytes[x.hid], w.pbytes[p])
-			rn.preload[x] = p
-			rn.present[x] = p
+		// the target is the product of a COMPLETE earlier sync of the older version (a real
+		// builder, answered honestly, flushed): closed under references, as the theorems require
+		first := &runner{r: r, w: w, src: src, objMode: objMode, target: rn.target,
+			closure: map[ref]int{}, preload: map[ref]int{}, present: map[ref]int{}, requested: map[ref]bool{},
+			delivered: map[int]bool{}, noCoq: true}
+		first.builder = merkle.NewBuilder(rn.target)
+		for i, id := range bucketIDs {
+			first.view[i], _ = first.builder.Database().GetBucket(id)
 		}
-		rn.roots = nil
-		rn.closure = map[ref]int{}
+		first.start(ref{0, w.hid(oldT.root)}, false)
+		for i := 0; i < 1000000 && first.builder.UnresolvedCount() > 0 && first.fail == ""; i++ {
+			reqs := first.requests()
+			q := reqs[r.Intn(len(reqs))]
+			first.deliver(w.pid(src.get(bkIndex(q.bks[0]), q.key)), q.bks[0], "answer")
+		}
+		first.flush()
+		if first.fail != "" {
+			return "", "direct", "earlier sync", "earlier complete sync of the older version: " + first.fail, runStats{}
+		}
+		for bk := 0; bk < 2; bk++ {
+			for k, v := range rn.target.bucket(bucketIDs[bk]).content {
+				x := ref{bk, w.hid([]byte(k))}
+				rn.preload[x] = w.pid(v)
+				rn.present[x] = w.pid(v)
+			}
+		}
+		rn.target.writes = 0
 	}
 	rn.pre = rn.prePacked()
 	if raw {
